@@ -31,12 +31,27 @@ def locus_str(b):
     return "/".join(str(x) for x in l["loc"])
 
 
-def run_driver(ctx, states, fams="json,sen,jp,conv"):
+def literals(ctx):
+    """TLC enumerates the string-escape classes and number shapes of spec/JsonValue (the C02 generator)"""
+    r = ctx.tlc("JsonValueGen", "JsonValueGen_quick.cfg" if ctx.quick else "JsonValueGen_thorough.cfg", workers=1, timeout=1200, heap="8g")
+    if r.error:
+        raise Infra("literal generation failed:\n" + r.out[-2000:])
+    lits = r.printed("LIT")
+    if len(lits) < 500:
+        raise Infra("only %d literals generated" % len(lits))
+    p = os.path.join(ctx.scratch, "lits.ndjson")
+    verif.write_ndjson(p, lits)
+    ctx.cov["literals_from_JsonValueGen"] = len(lits)
+    return p
+
+
+def run_driver(ctx, states, fams="json,sen,jp,conv", lits=None):
     pb = ctx.build("robust")
     ctx._rb_n = getattr(ctx, "_rb_n", 0) + 1
     tp = os.path.join(ctx.scratch, "robust_trace_%d.ndjson" % ctx._rb_n)
     with open(tp, "wb") as fo:
-        p = ctx.run([pb, "run", "-states", states, "-tier", ctx.tier, "-fam", fams], stdout=fo, check=False, timeout=3000)
+        p = ctx.run([pb, "run", "-states", states, "-tier", ctx.tier, "-fam", fams] + (["-lits", lits] if lits else []),
+                    stdout=fo, check=False, timeout=3000)
     err = p.stderr.decode(errors="replace")
     hang = None
     if p.returncode == 3:
@@ -50,10 +65,10 @@ def run_driver(ctx, states, fams="json,sen,jp,conv"):
     return tp, hang
 
 
-def one(ctx, api, b, limit=60):
-    """stand-alone re-run of one call in a fresh process"""
+def one(ctx, api, b, limit=60, prev=None):
+    """stand-alone re-run of one call in a fresh process (reused-instance apis: prev is parsed first on the same instance)"""
     pb = ctx.build("robust")
-    p = subprocess.run([pb, "one", "-api", api, "-limit", str(limit)], input=json.dumps({"b": b}).encode(),
+    p = subprocess.run([pb, "one", "-api", api, "-limit", str(limit)], input=json.dumps({"b": b, "prev": prev or []}).encode(),
                        capture_output=True, env=ctx.goenv(), timeout=limit + 30)
     if p.returncode != 0:
         raise Infra("robust one failed: " + p.stderr.decode(errors="replace")[-500:])
@@ -70,8 +85,8 @@ def judge_trace(ctx, tp):
         ev = json.loads(lines[b["i"] - 1])
         if b["kind"] == "accounting":
             raise Infra("aggregated event does not add up (harness defect): %s" % ev)
-        recs.append({"api": ev["api"], "kind": b["kind"], "locus": locus_str(b), "witness": jsonfam.to_text(ev["b"]),
-                     "case": {"api": ev["api"], "b": ev["b"], "lang": ev["lang"], "must": ev["must"], "vk": ev.get("vk", ""), "tk": ev.get("tk", "")},
+        recs.append({"api": ev["api"], "kind": b["kind"], "locus": locus_str(b), "witness": jsonfam.to_text(ev["b"]) if not ev.get("prev") else {"parsed_before_on_the_same_instance": jsonfam.to_text(ev["prev"]), "then": jsonfam.to_text(ev["b"])},
+                     "case": {"api": ev["api"], "b": ev["b"], "prev": ev.get("prev") or [], "lang": ev["lang"], "must": ev["must"], "vk": ev.get("vk", ""), "tk": ev.get("tk", "")},
                      "detail": {"outcome": ev["r"], "message": ev["m"][:200], "input_class": ev["cls"], "calls_failing_this_way": ev["count"]}})
     return recs
 
@@ -90,8 +105,8 @@ def judge(ctx, cases):
             continue
         if c.get("lang") == "asm":
             continue
-        o = one(ctx, c["api"], c["b"])
-        evs.append({"ev": "fail", "api": c["api"], "lang": c["lang"], "must": c["must"], "r": o["r"], "m": o.get("m", ""), "b": c["b"],
+        o = one(ctx, c["api"], c["b"], prev=c.get("prev"))
+        evs.append({"ev": "fail", "api": c["api"], "lang": c["lang"], "must": c["must"], "r": o["r"], "m": o.get("m", ""), "b": c["b"], "prev": c.get("prev") or [],
                     "cls": "replay", "count": 1, "vk": "", "tk": ""})
     if not evs:
         return []
@@ -106,24 +121,35 @@ def main(ctx):
     ctx.design("Robust", "Robust_small.cfg", workers=2, coverage=not ctx.quick)
     # (b) model-derived inputs: one witness per JsonText machine state from TLC
     states = jsonfam.cover_states(ctx)
-    tp, hang = run_driver(ctx, states)
+    lits = literals(ctx)
+    # asm plans with wrong arities / kinds (the C20 generator and trace specification, panic records only) run
+    # concurrently with the parser driver
+    import C20
+    import concurrent.futures as cf
+
+    def asm_part():
+        names = C20.fn_names(ctx)
+        parts = ["matrix012"] if ctx.quick else ["matrix012", "matrix012b", "matrix3", "values1"]
+        acases = C20.gen_cases(ctx, names, parts=parts, nrandom=500 if ctx.quick else 5000)
+        return C20.judge(ctx, acases, shrink=False)
+    ctx.build("asmx")
+    ctx.build("robust")
+    ex = cf.ThreadPoolExecutor(1)
+    fut = ex.submit(asm_part)
+    tp, hang = run_driver(ctx, states, lits=lits)
     recs = []
     if hang is not None:
         o = one(ctx, hang.get("api", ""), hang.get("b", []), limit=60)
         if o["r"] != "hang":
             raise Infra("a call exceeded the 20 s watchdog but returned within 60 s stand-alone (machine overloaded?): %s" % hang)
-        ev = {"ev": "fail", "api": hang["api"], "lang": "json", "must": False, "r": "hang", "m": "", "b": hang["b"], "cls": "hang", "count": 1, "vk": "", "tk": ""}
+        ev = {"ev": "fail", "api": hang["api"], "lang": "json", "must": False, "r": "hang", "m": "", "b": hang["b"], "prev": [], "cls": "hang", "count": 1, "vk": "", "tk": ""}
         hp = os.path.join(ctx.scratch, "hang.ndjson")
         verif.write_ndjson(hp, [ev])
         recs += judge_trace(ctx, hp)
     else:
         recs += judge_trace(ctx, tp)
-    # asm plans with wrong arities / kinds: the C20 generator and trace specification, panic records only
-    import C20
-    names = C20.fn_names(ctx)
-    parts = ["matrix012"] if ctx.quick else ["matrix012", "matrix012b", "matrix3", "values1"]
-    acases = C20.gen_cases(ctx, names, parts=parts, nrandom=500 if ctx.quick else 5000)
-    arecs = C20.judge(ctx, acases, shrink=False)
+    arecs = fut.result()
+    ex.shutdown()
     for r in arecs:
         if r["kind"] in ("panic", "hang"):
             r = dict(r, api="asm.NewPlan+Execute")
